@@ -18,6 +18,8 @@ type c14Piece struct {
 
 var c14Pieces = []c14Piece{
 	{"{{", "{{"}, {"}}", "}}"}, {"{", "{"}, {"}", "}"}, {"a", "a"}, {" ", " "}, {"x", "x"}, {"tick()", "tick()"}, {"1+1", "1+1"}, {`\n`, "\n"}, {`\"`, `"`},
+	// failing expressions whose error text carries the variable's content
+	{"raise(x)", "raise(x)"}, {"x+1", "x+1"},
 }
 
 var c14Envs = []struct{ name, val string }{
@@ -172,7 +174,7 @@ func c14Enumerate(c *Ctx, n int, envs []int, withRaw bool) {
 
 func init() {
 	register(&Part{Prop: "C14", Name: "literals", Quick: 16, Thor: 32,
-		Desc: "all string literal bodies of <= 4 pieces (thorough 5; plus one more piece with x = \"v\" only) over {{{, }}, {, }, a, space, x, tick(), 1+1, \\n, \\\"} in quoted and raw form, with x bound in turn to \"v\", \"{{tick()}}\", \"{{x}}\", \"}}\", \"{{\", \"{{1+1}}\"; tick is a counting harness function; evaluation under a 3000-visit step budget",
+		Desc: "all string literal bodies of <= 4 pieces (thorough 5; plus one more piece with x = \"v\" only) over {{{, }}, {, }, a, space, x, tick(), 1+1, \\n, \\\", raise(x), x+1} in quoted and raw form, with x bound in turn to \"v\", \"{{tick()}}\", \"{{x}}\", \"}}\", \"{{\", \"{{1+1}}\"; tick is a counting harness function; evaluation under a 3000-visit step budget",
 		Rule: "odometer over piece sequences x environments x {quoted, raw}; non-trivial = the literal is in the class the one-pass reference defines (well nested markers, expressions x / tick() / 1+1) or is a raw string",
 		Run: func(c *Ctx) {
 			all := []int{0, 1, 2, 3, 4, 5}
